@@ -236,6 +236,7 @@ UNITS['half_lock'] = dict(
     scan=[K + 'libc_model.rs'],
     harnesses={
         'c01_read': dict(props=['C01', 'C03', 'C18']),
+        'c18_read_balanced': dict(props=['C18', 'C01']),
         'c01_store': dict(props=['C01', 'C18'], unwind_obl='C18.BARRIER-BOUNDED'),
         'c01_write_guard': dict(props=['C01', 'C18']),
     })
@@ -245,6 +246,7 @@ obl('C01.R-SLOT', FH + 'HalfLock::read', 'the slot incremented is generation%2, 
 obl('C01.R-SEQCST', FH + 'HalfLock::read, update_seen', 'all half-lock accesses SeqCst')
 obl('C01.R-PTR', FH + 'HalfLock::read', 'guard.data is the pointer loaded after the increment')
 obl('C01.R-DEC', FH + 'ReadGuard::drop', 'exactly one fetch_sub(1) on the slot that was incremented (whatever the generation is by then)', also=['C18'])
+obl('C18.R-BALANCED', FH + 'read + ReadGuard::drop', 'over read() and the drop of its guard the increments and decrements of each reader slot cancel exactly, for arbitrary counter values and a writer flipping the generation up to twice during the call (a leaked increment wedges every later writer in the barrier)', kind='bounded(<= 2 generation flips during the call)', also=['C01'])
 obl('C01.U-STEP', FH + 'HalfLock::update_seen', 'one pass: one load per not-yet-drained slot')
 obl('C01.W-ZERO', FH + 'HalfLock::write_barrier', 'returns only after each slot was observed 0 since the swap')
 obl('C01.S-ORDER', FH + 'WriteGuard::store', 'swap(new) first; free(old) last and only after the barrier (both zero seen, flip done)')
